@@ -26,14 +26,14 @@ PIn == <<120, 121, 122>>
 
 Plain == <<[op |-> "recv_body"], [op |-> "recv_trailers"], [op |-> "send_response", status |-> 200, fields |-> <<>>], [op |-> "finish"]>>
 
-Scn(C, before, wt, ku, kb, finIn, payIn) ==
+ScnW(C, before, wt, ku, kb, finIn, payIn, wr) ==
     LET pre == [i \in 1..before |-> 4 * (i - 1)]
         reqs == LET RECURSIVE F(_) F(i) == IF i > before THEN <<>> ELSE <<Dl(pre[i], Frame(1, GetSec)), [op |-> "fin", sid |-> pre[i]]>> \o F(i + 1) IN F(1)
         uniBytes == UniHdr(C) \o payIn
         biBytes == BiHdr(C) \o payIn
         biSid == C + 4
     IN [part |-> "W", role |-> "server", connect_sid |-> C, before |-> before, wt |-> wt, fin_in |-> finIn, pay_in |-> payIn, uni_sid |-> 14, bi_sid |-> biSid,
-        cfg |-> [grease |-> FALSE, wt |-> wt, datagram |-> TRUE, ext_connect |-> TRUE],
+        cfg |-> [grease |-> FALSE, wt |-> wt, datagram |-> TRUE, ext_connect |-> TRUE, write |-> wr],
         default_handler |-> Plain,
         wt_prog |-> (IF wt THEN <<[op |-> "open_uni", payload |-> P1], [op |-> "open_bi", payload |-> P2], [op |-> "send_datagram", payload |-> P3],
                                   [op |-> "read_datagram"], [op |-> "accept_uni"], [op |-> "accept_bi"]>>
@@ -43,6 +43,8 @@ Scn(C, before, wt, ku, kb, finIn, payIn) ==
                   \o SplitDeliver(14, uniBytes, ku) \o (IF finIn THEN <<[op |-> "fin", sid |-> 14]>> ELSE <<>>)
                   \o (IF wt THEN SplitDeliver(biSid, biBytes, kb) \o (IF finIn THEN <<[op |-> "fin", sid |-> biSid]>> ELSE <<>>) ELSE <<>>)]
 
+Scn(C, before, wt, ku, kb, finIn, payIn) == ScnW(C, before, wt, ku, kb, finIn, payIn, "all")
+
 VARIABLE out
 Init == out = <<>>
 Next == /\ out = <<>>
@@ -51,6 +53,8 @@ Next == /\ out = <<>>
            \/ \E C \in {4, 256}, finIn \in BOOLEAN : \E kb \in 0..Len(BiHdr(C) \o PIn) : out' = Scn(C, 0, TRUE, 0, kb, finIn, PIn)
            \/ \E before \in {1, 2}, finIn \in BOOLEAN : out' = Scn(4 * before, before, TRUE, 0, 0, finIn, PIn)
            \/ \E C \in {0, 4} : \E ku \in {0, 2} : out' = Scn(C, 0, FALSE, ku, 0, TRUE, PIn)
+           \* the transport takes the server's writes (stream headers included) one or three bytes at a time
+           \/ \E C \in {0, 252, 256, 65536}, wr \in {"1", "3"}, finIn \in BOOLEAN : out' = ScnW(C, 0, TRUE, 0, 0, finIn, PIn, wr)
 Spec == Init /\ [][Next]_out
 Emit == out = <<>> \/ PrintT(<<"SCN", ToJson(out)>>)
 =============================================================================
